@@ -21,7 +21,7 @@
 
     Offsets are [nat]: [usize] additions are assumed not to overflow (lines are far below
     2^64 bytes); highlighting.rs contains no subtraction and slices only through [str::get]. *)
-From BV Require Import Base.Prelude.
+From BV Require Import Base.Prelude gen.C19Variant.
 Local Open Scope nat_scope.
 
 (** ** Kinds *)
@@ -79,29 +79,43 @@ Inductive call :=
 (** [skip_ahead(dest)] is [append_span(Default, dest..dest)] *)
 Definition skip (d : nat) : call := Append KDefault d d.
 
-(** [append_span]; [None] = a debug assertion failed (panic). *)
-Definition append_span (top : str) (st : bst) (k : kind) (s e : nat) : option bst :=
+(** [append_span]; [None] = a debug assertion failed (panic).
+    [clamp] selects the form of the function found in /repo by translator/ex_c19.py
+    (gen/C19Variant.v): [false] = the range is used as given; [true] = after the assertions
+      let line_len = self.input_line.len();
+      let start = range.start.min(line_len).max(self.current_byte_index);
+      let end = range.end.min(line_len).max(start); *)
+Definition push_range (st : bst) (k : kind) (s e : nat) : bst :=
+  let sp1 := if b_cur st <? s
+             then b_spans st ++ [(b_cur st, s, match b_nmk st with Some m => m | None => KComment end)]
+             else b_spans st in
+  (* Range::is_empty is !(start < end) *)
+  let sp2 := if s <? e then sp1 ++ [(s, e, k)] else sp1 in
+  mk_bst sp2 e (b_nmk st).
+
+Definition append_span_gen (clamp : bool) (top : str) (st : bst) (k : kind) (s e : nat) : option bst :=
   if negb (is_boundary top s) then None
   else if negb (is_boundary top e) then None
   else
-    let sp1 := if b_cur st <? s
-               then b_spans st ++ [(b_cur st, s, match b_nmk st with Some m => m | None => KComment end)]
-               else b_spans st in
-    (* Range::is_empty is !(start < end) *)
-    let sp2 := if s <? e then sp1 ++ [(s, e, k)] else sp1 in
-    Some (mk_bst sp2 e (b_nmk st)).
+    let s' := if clamp then Nat.max (Nat.min s (blen top)) (b_cur st) else s in
+    let e' := if clamp then Nat.max (Nat.min e (blen top)) s' else e in
+    Some (push_range st k s' e').
 
-Definition step (top : str) (st : bst) (c : call) : option bst :=
+Definition step_gen (clamp : bool) (top : str) (st : bst) (c : call) : option bst :=
   match c with
-  | Append k s e => append_span top st k s e
+  | Append k s e => append_span_gen clamp top st k s e
   | SetMissing k => Some (mk_bst (b_spans st) (b_cur st) (Some k))
   end.
 
-Fixpoint run_calls (top : str) (st : bst) (cs : list call) : option bst :=
+Fixpoint run_calls_gen (clamp : bool) (top : str) (st : bst) (cs : list call) : option bst :=
   match cs with
   | [] => Some st
-  | c :: cs' => match step top st c with Some st' => run_calls top st' cs' | None => None end
+  | c :: cs' => match step_gen clamp top st c with Some st' => run_calls_gen clamp top st' cs' | None => None end
   end.
+
+(** the code as it is in /repo *)
+Definition append_span := append_span_gen clamp_spans.
+Definition run_calls := run_calls_gen clamp_spans.
 
 (** ** What the highlighter consumes: tokens, word pieces, nested commands *)
 Record flags := mk_flags {
@@ -190,11 +204,21 @@ with toks_calls (cursor : nat) (line : str) (off : nat) (saw : bool) (ts : token
   end.
 
 (** [highlight_command(shell, line, cursor).spans()]; [None] = panic *)
-Definition highlight (top : str) (cursor : nat) (p : prog) : option (list span) :=
-  match run_calls top bst0 (prog_calls cursor top 0 p) with
+Definition highlight_gen (clamp : bool) (top : str) (cursor : nat) (p : prog) : option (list span) :=
+  match run_calls_gen clamp top bst0 (prog_calls cursor top 0 p) with
   | Some st => Some (b_spans st)
   | None => None
   end.
+Definition highlight := highlight_gen clamp_spans.
+
+(** every position handed to [append_span] is a char boundary of the line (what its debug
+    assertions demand) *)
+Definition call_aligned (top : str) (c : call) : bool :=
+  match c with
+  | Append _ s e => is_boundary top s && is_boundary top e
+  | SetMissing _ => true
+  end.
+Definition calls_aligned (top : str) (cs : list call) : bool := forallb (call_aligned top) cs.
 
 (** ** The hypotheses on the consumed data, as a decidable check
 
